@@ -5,10 +5,12 @@
      MC_PtRefs_dir*.cfg    C16: every resume pattern over directories of 0..4 entries, dots anywhere in the stream *)
 EXTENDS PtRefsImpl
 NamesAB == <<"a", "b">>
-CfgRefs == {[fh |-> f, hostino |-> h, no_open |-> FALSE, no_opendir |-> TRUE, via |-> "pt"] : f \in BOOLEAN, h \in BOOLEAN}
-CfgRes == {[fh |-> f, hostino |-> FALSE, no_open |-> o, no_opendir |-> d, via |-> "pt"] : f \in BOOLEAN, o \in BOOLEAN, d \in BOOLEAN}
+CfgRefs == {[fh |-> f, hostino |-> h, no_open |-> FALSE, no_opendir |-> TRUE, via |-> "pt", seal |-> FALSE] : f \in BOOLEAN, h \in BOOLEAN}
+           \cup {[fh |-> f, hostino |-> FALSE, no_open |-> FALSE, no_opendir |-> TRUE, via |-> "pt", seal |-> TRUE] : f \in BOOLEAN}
+CfgRes == {[fh |-> f, hostino |-> FALSE, no_open |-> o, no_opendir |-> d, via |-> "pt", seal |-> FALSE] : f \in BOOLEAN, o \in BOOLEAN, d \in BOOLEAN}
+          \cup {[fh |-> FALSE, hostino |-> FALSE, no_open |-> o, no_opendir |-> o, via |-> "pt", seal |-> TRUE] : o \in BOOLEAN}
 CfgResQ == {c \in CfgRes : c.no_open = c.no_opendir}
-CfgDir == {[fh |-> FALSE, hostino |-> FALSE, no_open |-> FALSE, no_opendir |-> d, via |-> v] : d \in BOOLEAN, v \in {"pt", "pseudo"}}
+CfgDir == {[fh |-> FALSE, hostino |-> FALSE, no_open |-> FALSE, no_opendir |-> d, via |-> v, seal |-> FALSE] : d \in BOOLEAN, v \in {"pt", "pseudo"}}
 NoDetail == FALSE
 AnyBlame(lk, susp) == "any"
 Counts12 == {1, 2}
